@@ -88,6 +88,12 @@ try:
             fails = sorted({l.split()[1] for l in out.split("\n") if l.startswith("FAIL\t")})
             print("existing tests failed in", m, fails, "- retrying those packages once")
             rc, out, t = sh("go test -vet=off -count=1 -timeout 25m " + " ".join(fails), os.path.join(wt, m), 2400)
+        if rc != 0 and "module lookup disabled by GOPROXY=off" in out:
+            # a module whose own go.mod pins a version that is not in the offline module cache (exporter/otlpexporter):
+            # run its package tests from internal/e2e, which resolves it (and its dependencies) through replace directives
+            mp = subprocess.run("go list -m", cwd=os.path.join(wt, m), env=dict(env, GOFLAGS="-mod=mod"), shell=True, stdout=subprocess.PIPE, text=True).stdout.strip()
+            rc, out, t = sh("go test -vet=off -count=1 -timeout 25m %s/..." % mp, os.path.join(wt, "internal/e2e"), 2400)
+            print("module", m, "does not resolve offline on its own; ran its tests from internal/e2e: exit", rc)
         for d in demos:
             p = os.path.join(pkgdir, os.path.basename(d))
             if os.path.exists(p + ".aside"):
